@@ -12,7 +12,7 @@
    at most the recorded amount cannot fail for lack of funds); the same inequality is also evaluated on the
    implementation's snapshots by Monitors.mon_C05 on every run. Statements only. *)
 From MD.Model Require Import Base Ownable Epoch PoolMath Types PoolManager FarmManager Chain.
-From MD.Proofs Require Import BankProofs ChainProofs AtomicProofs WeightProofs FarmProofs RewardProofs FarmCustody FarmCustodyChain.
+From MD.Proofs Require Import BankProofs ChainProofs AtomicProofs WeightProofs FarmProofs RewardProofs FarmCustody FarmCustodyChain NonVacuity.
 
 (* the invariant, for every reachable world *)
 Theorem C05_custody_in_every_reachable_world : forall g w0 ops d,
@@ -96,6 +96,13 @@ Theorem C05_claims_never_exceed_the_funded_amount : forall modified fs fs',
     exists f, sfind f_id id fs = Some f /\ farm_same_but_claimed f f' \/ (sfind f_id id fs = Some f' /\ f = f').
 Proof. exact claim_farm_update_bounded. Qed.
 
+(* the hypotheses of the history-level theorems above are met by a real history: a concrete genesis (g0) and list of
+   operations (ops0: pool creation, deposits, swap, odd single-asset deposit, donation, locked deposit, position, farm,
+   epochs, claim, withdrawal) satisfy all of them, every transaction of it is accepted, and afterwards reserves,
+   positions and farm budgets are non-zero and the only excess is the odd unit and the donation *)
+Theorem C05_hypotheses_met_by_a_real_history : nonvacuity_statement.
+Proof. exact hypotheses_satisfiable_by_a_real_history. Qed.
+
 Print Assumptions C05_custody_in_every_reachable_world.
 Print Assumptions C05_custody_preserved_by_every_operation.
 Print Assumptions C05_every_message_is_accounted.
@@ -103,3 +110,4 @@ Print Assumptions C05_position_created_with_attached_lp.
 Print Assumptions C05_withdrawal_pays_at_most_the_recorded_amount.
 Print Assumptions C05_close_farm_refunds_exactly_the_remainder.
 Print Assumptions C05_claims_never_exceed_the_funded_amount.
+Print Assumptions C05_hypotheses_met_by_a_real_history.
